@@ -1,6 +1,7 @@
 package ffldb
 
 import (
+	"bytes"
 	"fmt"
 	"os"
 	"path/filepath"
@@ -40,7 +41,7 @@ func (w *world) bucketAt(tx database.Tx, p tla.Value) (database.Bucket, error) {
 // step.  It stops at the first step with a divergence (later comparisons
 // would only repeat it).
 func (r *runner) replayPath(g *graph, path []int32, scratch string) (out outcome) {
-	w := &world{r: r, cc: r.cc, root: scratch, txs: map[string]database.Tx{}, crashAfter: -1, reported: map[string]bool{}}
+	w := &world{r: r, cc: r.cc, root: scratch, txs: map[string]database.Tx{}, curs: map[string]*curState{}, crashAfter: -1, reported: map[string]bool{}}
 	defer func() {
 		out.evals = w.evals
 		if out.drift == "" {
@@ -75,6 +76,23 @@ func (r *runner) replayPath(g *graph, path []int32, scratch string) (out outcome
 				out.infra = fmt.Errorf("create: %v", err)
 				return
 			}
+			if pre := l.F("pre").Strs(); len(pre) > 0 {
+				// buckets that exist (flushed) before the behaviour starts
+				rffldb.VerifSetFlush(w.db, -time.Hour, 1<<40)
+				err := w.db.Update(func(tx database.Tx) error {
+					for _, n := range pre {
+						if _, err := tx.Metadata().CreateBucket(w.cc.name[n]); err != nil {
+							return err
+						}
+					}
+					return nil
+				})
+				rffldb.VerifSetFlush(w.db, 1000*time.Hour, 1<<40)
+				if err != nil {
+					out.infra = fmt.Errorf("pre-creating buckets: %v", err)
+					return
+				}
+			}
 		case "Begin":
 			h := l.F("h").Str()
 			tx, err := w.db.Begin(h == "w")
@@ -83,8 +101,11 @@ func (r *runner) replayPath(g *graph, path []int32, scratch string) (out outcome
 				break
 			}
 			w.txs[h] = tx
+		case "Cur":
+			divs = append(divs, w.cursorStep(l)...)
 		case "Rollback":
 			h := l.F("h").Str()
+			delete(w.curs, h)
 			if err := w.txs[h].Rollback(); err != nil {
 				divs = append(divs, divergence{"api:rollback", fmt.Sprintf("Rollback failed: %v", err)})
 			}
@@ -220,7 +241,7 @@ func (r *runner) replayPath(g *graph, path []int32, scratch string) (out outcome
 			if len(cmp) > 0 || len(dd) > 0 {
 				onlyKnown := len(dd) == 0
 				for _, d := range cmp {
-					if !strings.HasPrefix(d.key, "prune-not-atomic:") {
+					if !d.cont() {
 						onlyKnown = false
 					}
 				}
@@ -231,7 +252,7 @@ func (r *runner) replayPath(g *graph, path []int32, scratch string) (out outcome
 							allowed = true
 						}
 					}
-					if allowed && len(dd) == 0 {
+					if allowed {
 						fetchTrouble := false
 						for _, d := range cmp {
 							if strings.HasPrefix(d.key, "fidelity:") {
@@ -239,7 +260,11 @@ func (r *runner) replayPath(g *graph, path []int32, scratch string) (out outcome
 							}
 						}
 						if !fetchTrouble {
-							out.drift, out.atStep = "reopened state is an allowed prefix but not the one the specification predicts: "+cmp[0].what, i
+							var ks []string
+							for _, d := range append(append([]divergence{}, cmp...), dd...) {
+								ks = append(ks, d.key+" ("+d.what+")")
+							}
+							out.drift, out.atStep = "reopened state is an allowed prefix but not the one the specification predicts: "+strings.Join(ks, "; "), i
 							return
 						}
 					}
@@ -279,8 +304,13 @@ func (r *runner) replayPath(g *graph, path []int32, scratch string) (out outcome
 			}
 			divs = append(divs, w.compareAll(obs, act, ctxKey)...)
 		}
-		if len(divs) > 0 {
-			out.divs, out.atStep = divs, i
+		stop := false
+		for _, d := range divs {
+			out.divs = append(out.divs, d)
+			out.atStep = i
+			stop = stop || !d.cont()
+		}
+		if stop {
 			return
 		}
 		if w.drift != "" {
@@ -330,6 +360,9 @@ func (w *world) compareAll(obs tla.Value, act, dbCtx string) []divergence {
 			prefix, where, ctxKey = "read-your-writes", fmt.Sprintf("write transaction after %s", act), "writer-view"
 		}
 		divs = append(divs, w.compareView(real, readSpecView(vs[i]), prefix, where, ctxKey)...)
+		if vs[i].Has("cur") {
+			divs = append(divs, w.compareCursor(h, vs[i].F("cur"), act)...)
+		}
 	}
 	db := obs.F("db")
 	if db.F("kv").Len() > 0 { // rendered only between commits
@@ -387,6 +420,7 @@ func (w *world) commitChain(g *graph, path []int32, i int, before tla.Value) (en
 	cerr := tx.Commit()
 	w.armed = false
 	delete(w.txs, "w")
+	delete(w.curs, "w")
 	rffldb.VerifSetFlush(w.db, 1000*time.Hour, 1<<40)
 
 	// implementation-layer conformance: the I/O calls are the ones the
@@ -469,3 +503,134 @@ func (w *world) commitChain(g *graph, path []int32, i int, before tla.Value) (en
 }
 
 var _ = filepath.Join
+
+// curState is an explicit cursor held by a real transaction together with
+// what the binder knows about its history (used only to classify a
+// divergence).
+type curState struct {
+	c         database.Cursor
+	lastDir   string // direction of the last move: "fwd" | "back" | ""
+	dirTaint  bool   // the direction changed since the last First/Last/Seek
+	deleted   bool   // Cursor.Delete was used
+	seekTaint bool   // First/Last/Seek was called after a Delete
+	lastOp    string
+}
+
+func (w *world) cursorStep(l tla.Value) []divergence {
+	h, op := l.F("h").Str(), l.F("op").Str()
+	tx := w.txs[h]
+	if tx == nil {
+		return []divergence{{"harness:no-tx", "no real transaction for handle " + h}}
+	}
+	if op == "Open" {
+		b, err := w.bucketAt(tx, l.F("p"))
+		if err != nil {
+			return []divergence{{"api:cursor", err.Error()}}
+		}
+		w.curs[h] = &curState{c: b.Cursor()}
+		return nil
+	}
+	cs := w.curs[h]
+	if cs == nil {
+		return []divergence{{"harness:no-cursor", "no real cursor for handle " + h}}
+	}
+	var ret bool
+	switch op {
+	case "First":
+		ret = cs.c.First()
+	case "Last":
+		ret = cs.c.Last()
+	case "Seek":
+		ret = cs.c.Seek(w.cc.key[l.F("k").Str()])
+	case "Next":
+		ret = cs.c.Next()
+	case "Prev":
+		ret = cs.c.Prev()
+	case "Delete":
+		if err := cs.c.Delete(); err != nil {
+			return []divergence{{"api:cursor-delete", fmt.Sprintf("Cursor.Delete failed: %v", err)}}
+		}
+		cs.deleted = true
+		cs.lastOp = op
+		return nil
+	}
+	switch op {
+	case "First", "Seek":
+		cs.lastDir, cs.dirTaint = "fwd", false
+		if cs.deleted {
+			cs.seekTaint = true
+		}
+	case "Last":
+		cs.lastDir, cs.dirTaint = "back", false
+		if cs.deleted {
+			cs.seekTaint = true
+		}
+	case "Next":
+		if cs.lastDir == "back" {
+			cs.dirTaint = true
+		}
+		cs.lastDir = "fwd"
+	case "Prev":
+		if cs.lastDir == "fwd" {
+			cs.dirTaint = true
+		}
+		cs.lastDir = "back"
+	}
+	cs.lastOp = op
+	w.evals++
+	if ret != l.F("ret").Bool() {
+		return []divergence{{w.cursorKey(cs), fmt.Sprintf("cursor of transaction %s: %s returned %v (now at %x), specification: %v", h, op, ret, cs.c.Key(), l.F("ret").Bool())}}
+	}
+	return nil
+}
+
+// cursorKey classifies a cursor divergence: the two known defects of the
+// merged cursor get their own keys, everything else is an ordering violation.
+func (w *world) cursorKey(cs *curState) string {
+	switch {
+	case cs.seekTaint && (cs.lastOp == "Next" || cs.lastOp == "Prev"):
+		return "cursor:reposition-after-delete"
+	case cs.dirTaint && (cs.lastOp == "Next" || cs.lastOp == "Prev"):
+		return "cursor:direction-change"
+	}
+	return "order:cursor-move"
+}
+
+func (w *world) compareCursor(h string, sc tla.Value, act string) []divergence {
+	st := sc.F("st").Str()
+	cs := w.curs[h]
+	if st == "none" {
+		return nil
+	}
+	if cs == nil {
+		return []divergence{{"harness:no-cursor", "no real cursor for handle " + h}}
+	}
+	w.evals++
+	k := cs.c.Key()
+	switch st {
+	case "new", "end":
+		if k != nil && sc.F("fresh").Bool() {
+			return []divergence{{w.cursorKey(cs), fmt.Sprintf("cursor of transaction %s after %s stands at %x, specification: exhausted", h, act, k)}}
+		}
+	case "at":
+		e := sc.F("e")
+		kind, name := e.At(1).Str(), e.At(2).Str()
+		want := w.cc.key[name]
+		if kind == "b" {
+			want = w.cc.name[name]
+		}
+		if !bytes.Equal(k, want) || k == nil {
+			return []divergence{{w.cursorKey(cs), fmt.Sprintf("cursor of transaction %s after %s stands at %x, specification: %s %s (%x)", h, act, k, kind, name, want)}}
+		}
+		if sc.F("fresh").Bool() {
+			v := cs.c.Value()
+			if kind == "b" && v != nil {
+				return []divergence{{"order:cursor-value", fmt.Sprintf("cursor of transaction %s at nested bucket %s has value %x", h, name, v)}}
+			}
+			if vs := sc.F("v").Seq(); kind == "k" && len(vs) == 1 && (v == nil || !bytes.Equal(v, w.cc.val[vs[0].Str()])) {
+				return []divergence{{"order:cursor-value", fmt.Sprintf("cursor of transaction %s at key %s has value %x, specification %q", h, name, v, vs[0].Str())}}
+			}
+		}
+	}
+	return nil
+}
